@@ -16,6 +16,7 @@ type Leaf struct {
 	Sort *Sort      // SMT sort of this leaf
 	T    types.Type // Go type of the leaf (for ranges / havoc-by-type)
 	Role string     // "", "base","off","len","cap","tag","data","array"
+	Owner string    // "pkg.Type.field" of the struct field this scalar leaf is (for field invariants)
 }
 
 type Layout struct {
@@ -108,6 +109,9 @@ func computeLeaves(t types.Type) []Leaf {
 		for i := 0; i < u.NumFields(); i++ {
 			f := u.Field(i)
 			for _, lf := range LayoutOf(f.Type()).Leaves {
+				if lf.Path == "" && lf.Owner == "" {
+					lf.Owner = shortTypeKey(t) + "." + f.Name()
+				}
 				lf.Path = "." + f.Name() + lf.Path
 				out = append(out, lf)
 			}
